@@ -1,6 +1,6 @@
 (* C02: generated deserializers decode every byte string as the specification prescribes.
-   Statements only; proofs in Spec/WireThm*.v and Codec/Refine.v. *)
-From Verif Require Import Wire WireThm WireThmRt WireThmExt WireThmValid Walker Refine.
+   Statements only; proofs in Spec/WireThm*.v, Codec/Refine.v and Codec/RefineDes*.v. *)
+From Verif Require Import Wire WireThm WireThmRt WireThmExt WireThmValid Walker Refine RefineDesBase RefineDes.
 Local Open Scope nat_scope.
 
 (* the reported number of consumed bytes never exceeds the number supplied *)
@@ -63,6 +63,38 @@ Print Assumptions c02_walker_des_refines_bytes_partial.
 Example c02_fragment_inhabited :
   walk_fragment (TComp true [TPrim (PU 13 false); TVar (TPrim PBool) 9; TFix (TPrim (PF 16 true)) 3] (Some 128)) = true.
 Proof. reflexivity. Qed.
+
+(* FULL deserialization refinement (Codec/RefineDes.v): for every primitive record satisfying the laws, EVERY type - nested sealed
+   and delimited composites at any depth, arrays of composites, unions with composite members - and every whole-byte bit string,
+   the code-shaped walker returns exactly what the specification prescribes (value, error, reported size).  No well-formedness
+   hypothesis is needed.  This is Refine.walk_des_refines_statement. *)
+Theorem c02_walker_des_refines : forall P t bits, prims_ok P -> length bits mod 8 = 0 -> walk_des P t bits = des_spec t bits.
+Proof. exact walk_des_refines_all. Qed.
+Print Assumptions c02_walker_des_refines.
+
+Theorem c02_walker_des_refines_statement : walk_des_refines_statement.
+Proof. exact walk_des_refines_statement_holds. Qed.
+Print Assumptions c02_walker_des_refines_statement.
+
+Theorem c02_walker_des_refines_bytes : forall t bytes, walk_des_obs t bytes = des_spec t (bits_of_bytes bytes).
+Proof. exact walk_des_refines_bytes. Qed.
+Print Assumptions c02_walker_des_refines_bytes.
+
+(* the walker's reported size never exceeds what was supplied (transferred from the specification through the refinement) *)
+Theorem c02_walker_consumed_le : forall P t bits v c, prims_ok P -> length bits mod 8 = 0 ->
+  walk_des P t bits = Ok (v, c) -> 8 * c <= length bits.
+Proof. exact walk_des_consumed_le. Qed.
+Print Assumptions c02_walker_consumed_le.
+
+(* the cursor relation used by the proof is not the identity: a nested sealed object that runs past the end of the data leaves
+   the walker's cursor AT the capacity (clamped size) while the specification's is beyond it - same observable result *)
+Example c02_clamped_cursor_example :
+  let inner := TComp false [TPrim (PU 32 true)] None in
+  let t := TComp false [inner; TPrim (PU 8 true)] None in
+  wd_body ref_prims t (bits_of_bytes [1; 2]%N) 16 0 = Ok (VStruct [VStruct [VInt 513]; VInt 0], 24) /\
+  dec_body t (bits_of_bytes [1; 2]%N) = Ok (VStruct [VStruct [VInt 513]; VInt 0], 40) /\
+  walk_des ref_prims t (bits_of_bytes [1; 2]%N) = des_spec t (bits_of_bytes [1; 2]%N).
+Proof. vm_compute. repeat split; reflexivity. Qed.
 
 (* finding F-PY-DES-ASSERT: the quirk-faithful model of the generated Python deserializer (assert consumed <= max bit length of
    the type) refuses an input the specification accepts *)
